@@ -609,6 +609,18 @@ impl<'ast> Visit<'ast> for LoopFinder {
         }
         // D2: X.iter().enumerate().filter_map(|(J, Q)| BODY).collect()      D15: X.iter().map(|P| E).collect()
         if e.method == "collect" && e.args.is_empty() {
+            // D38 with one trailing element: ...map(..).chain(std::iter::once(T)).collect()
+            if let syn::Expr::MethodCall(ch) = &*e.receiver {
+                if ch.method == "chain" && ch.args.len() == 1 {
+                    if let (syn::Expr::Call(c), syn::Expr::MethodCall(inner)) = (&ch.args[0], &*ch.receiver) {
+                        let fname = src_of_path(&c.func);
+                        if (fname == "std::iter::once" || fname == "iter::once" || fname == "once") && c.args.len() == 1 {
+                            let t = c.args[0].span().byte_range();
+                            self.try_d38(e, inner, Some((t.start, t.end)));
+                        }
+                    }
+                }
+            }
             if let syn::Expr::MethodCall(fm) = &*e.receiver {
                 if fm.method == "filter_map" && fm.args.len() == 1 {
                     if let (syn::Expr::Closure(c), syn::Expr::MethodCall(en)) = (&fm.args[0], &*fm.receiver) {
@@ -679,43 +691,7 @@ impl<'ast> Visit<'ast> for LoopFinder {
                         }
                     }
                 }
-                // D38: X.iter().enumerate().filter(|&(I, _)| C).map(|(_, Q)| E).collect()
-                if fm.method == "map" && fm.args.len() == 1 {
-                    if let (syn::Expr::Closure(cm), syn::Expr::MethodCall(fl)) = (&fm.args[0], &*fm.receiver) {
-                        if fl.method == "filter" && fl.args.len() == 1 {
-                            if let (syn::Expr::Closure(cf), syn::Expr::MethodCall(en)) = (&fl.args[0], &*fl.receiver) {
-                                if en.method == "enumerate" && en.args.is_empty() && cm.inputs.len() == 1 && cf.inputs.len() == 1 {
-                                    if let syn::Expr::MethodCall(it) = &*en.receiver {
-                                        // the filter closure takes `&(a, b)`, the map closure `(a, b)`
-                                        let fpat_inner = match &cf.inputs[0] {
-                                            syn::Pat::Reference(r) => match &*r.pat { syn::Pat::Tuple(t) if t.elems.len() == 2 => Some(t.span().byte_range()), _ => None },
-                                            _ => None,
-                                        };
-                                        let mpat_ok = matches!(&cm.inputs[0], syn::Pat::Tuple(t) if t.elems.len() == 2);
-                                        if it.method == "iter" && it.args.is_empty() && mpat_ok {
-                                            if let Some(fp) = fpat_inner {
-                                                let mut ef = EscapeFinder::default();
-                                                ef.visit_expr(&cm.body);
-                                                ef.visit_expr(&cf.body);
-                                                if ef.escapes == 0 {
-                                                    let call = e.span().byte_range();
-                                                    let recv = it.receiver.span().byte_range();
-                                                    let fb = cf.body.span().byte_range();
-                                                    let mp = cm.inputs[0].span().byte_range();
-                                                    let mb = cm.body.span().byte_range();
-                                                    self.vd.push(format!(
-                                                        "{{\"rule\":\"D38\",\"call\":[{},{}],\"recv\":[{},{}],\"fpat\":[{},{}],\"fbody\":[{},{}],\"pat\":[{},{}],\"body\":[{},{}]}}",
-                                                        call.start, call.end, recv.start, recv.end, fp.start, fp.end, fb.start, fb.end, mp.start, mp.end, mb.start, mb.end
-                                                    ));
-                                                }
-                                            }
-                                        }
-                                    }
-                                }
-                            }
-                        }
-                    }
-                }
+                self.try_d38(e, fm, None);
                 if fm.method == "map" && fm.args.len() == 1 {
                     if let (syn::Expr::Closure(c), syn::Expr::MethodCall(it)) = (&fm.args[0], &*fm.receiver) {
                         if it.method == "iter" && it.args.is_empty() && c.inputs.len() == 1 && matches!(c.inputs[0], syn::Pat::Ident(_) | syn::Pat::Reference(_)) {
@@ -852,6 +828,52 @@ impl<'ast> Visit<'ast> for LoopFinder {
     }
 }
 
+fn src_of_path(e: &syn::Expr) -> String {
+    match e { syn::Expr::Path(p) => p.path.segments.iter().map(|s| s.ident.to_string()).collect::<Vec<_>>().join("::"), _ => String::new() }
+}
+impl LoopFinder {
+    // D38: X.iter().enumerate().filter(|&(I, _)| C).map(|(_, Q)| E)[.chain(std::iter::once(T))].collect()
+    fn try_d38(&mut self, e: &syn::ExprMethodCall, fm: &syn::ExprMethodCall, tail: Option<(usize, usize)>) {
+        if fm.method == "map" && fm.args.len() == 1 {
+            if let (syn::Expr::Closure(cm), syn::Expr::MethodCall(fl)) = (&fm.args[0], &*fm.receiver) {
+                if fl.method == "filter" && fl.args.len() == 1 {
+                    if let (syn::Expr::Closure(cf), syn::Expr::MethodCall(en)) = (&fl.args[0], &*fl.receiver) {
+                        if en.method == "enumerate" && en.args.is_empty() && cm.inputs.len() == 1 && cf.inputs.len() == 1 {
+                            if let syn::Expr::MethodCall(it) = &*en.receiver {
+                                // the filter closure takes `&(a, b)`, the map closure `(a, b)`
+                                let fpat_inner = match &cf.inputs[0] {
+                                    syn::Pat::Reference(r) => match &*r.pat { syn::Pat::Tuple(t) if t.elems.len() == 2 => Some((t.span().byte_range(), true)), _ => None },
+                                            // `|(a, b)|` on the `&(usize, &T)` argument: default binding modes, the names bind references
+                                            syn::Pat::Tuple(t) if t.elems.len() == 2 => Some((t.span().byte_range(), false)),
+                                    _ => None,
+                                };
+                                let mpat_ok = matches!(&cm.inputs[0], syn::Pat::Tuple(t) if t.elems.len() == 2);
+                                if it.method == "iter" && it.args.is_empty() && mpat_ok {
+                                    if let Some((fp, fderef)) = fpat_inner {
+                                        let mut ef = EscapeFinder::default();
+                                        ef.visit_expr(&cm.body);
+                                        ef.visit_expr(&cf.body);
+                                        if ef.escapes == 0 {
+                                            let call = e.span().byte_range();
+                                            let recv = it.receiver.span().byte_range();
+                                            let fb = cf.body.span().byte_range();
+                                            let mp = cm.inputs[0].span().byte_range();
+                                            let mb = cm.body.span().byte_range();
+                                            self.vd.push(format!(
+                                                "{{\"rule\":\"D38\",\"call\":[{},{}],\"recv\":[{},{}],\"fpat\":[{},{}],\"fbody\":[{},{}],\"pat\":[{},{}],\"body\":[{},{}],\"fderef\":{},\"tail\":[{},{}]}}",
+                                                call.start, call.end, recv.start, recv.end, fp.start, fp.end, fb.start, fb.end, mp.start, mp.end, mb.start, mb.end, fderef, tail.map(|t| t.0).unwrap_or(0), tail.map(|t| t.1).unwrap_or(0)
+                                            ));
+                                        }
+                                    }
+                                }
+                            }
+                        }
+                    }
+                }
+            }
+        }
+    }
+}
 struct Out {
     items: Vec<String>,
     conv: Conv,
